@@ -1,5 +1,6 @@
 //! Large cases: braids longer than the 256-entry buffer, more than 3x256 live convergence points,
 //! long chains with skip lists, wide head sets. Serves C01, C02, C03, C09.
+use graphkit::audit::{wire, WireCmd};
 use graphkit::{dag::*, driver::*, r#gen::*, model::*, replica::*};
 use vcore::*;
 
@@ -112,6 +113,7 @@ pub fn case(cs: u64, args: &Args, mons: &mut Mons, case: &Value) {
     let mut obs = Obs::default();
     let mut views = vec![];
     let none = Bits::new(model.len());
+    let mut first: Option<(Vec<Step>, u64)> = None;
     for h in 0..2 {
         let hcfg = HistCfg {
             order: if h == 0 { Order::Creation } else { *rng.pick(&[Order::RandomTopo, Order::DepthFirst, Order::LowIdFirst]) },
@@ -123,6 +125,9 @@ pub fn case(cs: u64, args: &Args, mons: &mut Mons, case: &Value) {
         let steps = history(&model, &|_| true, &hcfg, &mut rng);
         let mut rep = MemReplica::new_mem(&init);
         let out = run_history(&mut rep, &mut model, &steps, &none, &RunCfg { check_every_commit: false, check_blocks: true }, &mut obs);
+        if h == 0 && !out.aborted {
+            first = Some((steps.clone(), rep.spill.braid_reads.get()));
+        }
         if !out.aborted && out.committed == all {
             if let Some(v) = final_view(&mut rep) {
                 views.push(v);
@@ -136,6 +141,60 @@ pub fn case(cs: u64, args: &Args, mons: &mut Mons, case: &Value) {
         obs.count("spill_braid_reads", rep.spill.braid_reads.get());
         obs.count("spill_conv_writes", rep.spill.conv_writes.get());
         obs.count("spill_conv_reads", rep.spill.conv_reads.get());
+    }
+    // Fault injection on the spill: the same first history again with the k-th read of a spilled
+    // braid block failing. Whatever the runtime does with the error, it may not report success
+    // for a state that misses commands: either the call fails (nothing new is committed) or the
+    // committed facts equal the reference.
+    if let Some((steps0, reads0)) = first.take() {
+        if reads0 > 0 {
+            let k = rng.below(reads0);
+            let mut rep = MemReplica::new_mem(&init);
+            rep.spill.fail_braid_reads_from.set(Some(k));
+            let mut trx = rep.trx();
+            let mut in_trx = Bits::new(model.len());
+            let mut outcome = "not-reached";
+            'steps: for step in &steps0 {
+                match step {
+                    Step::Add(batch) => {
+                        let wires: Vec<WireCmd> = batch.iter().map(|&v| wire(&model.dag, v)).collect();
+                        match rep.add(&mut trx, &wires) {
+                            Ok(_) => {
+                                for &v in batch {
+                                    in_trx.set(v);
+                                }
+                            }
+                            Err(_) => {
+                                outcome = "add-failed";
+                                break 'steps;
+                            }
+                        }
+                    }
+                    Step::Flush => {
+                        let _ = rep.flush(&mut trx);
+                    }
+                    Step::Commit => {
+                        let t = std::mem::replace(&mut trx, rep.trx());
+                        match rep.commit(t) {
+                            Ok(_) => {
+                                outcome = "committed";
+                                rep.take_log();
+                                let injected = rep.spill.injected_read_faults.get();
+                                check_committed(&mut rep, &mut model, &in_trx, &json!({"after": "commit with a failing spill read", "failing_read": k, "injected": injected}), true, &mut obs);
+                            }
+                            Err(_) => outcome = "commit-failed",
+                        }
+                        break 'steps;
+                    }
+                }
+            }
+            rep.take_log();
+            obs.count("spill_read_fault_cases", 1);
+            obs.count(&format!("spill_read_fault_outcome_{outcome}"), 1);
+            if rep.spill.injected_read_faults.get() > 0 {
+                obs.count("spill_read_faults_injected", 1);
+            }
+        }
     }
     if views.len() == 2 && views[0] != views[1] {
         obs.fail("C01", "large-replicas-with-same-commands-differ", json!({"heads_equal": views[0].0 == views[1].0, "facts_equal": views[0].1 == views[1].1, "hello_equal": views[0].2 == views[1].2}));
